@@ -20,7 +20,7 @@ for f in x["failures"]:
     print("FAIL", json.dumps(f, default=repr)[:1500])
 for b in x["breaks"]:
     print("BREAK", json.dumps(b, default=repr)[:2500])
-print({k: v for k, v in ctx.counts.items() if "OBJ" in k or "thr" in k or "hyp" in k or "reverse" in k or "c08" in k or "c10" in k})
+print({k: v for k, v in ctx.counts.items() if "OBJ" in k or "thr" in k or "hyp" in k or "reverse" in k or "c08" in k or "c10" in k or "c09:hyp" in k or "shared" in k})
 print("elapsed %.1fs" % ctx.elapsed())
 import shutil
 shutil.rmtree(ctx.scratch, ignore_errors=True)
